@@ -186,4 +186,538 @@ theorem resolved_stable_step (o : ExitOrder) (s : State) (op : Op) (i : Nat) (r 
   case readSeesClosed => unfold readSeesClosed; grind
   case readReport => unfold readReport; grind
 
+/-! ### Layer A: the table invariant behind the `expect` of `process_subscription_close_response` -/
+
+theorem subsOK_of_eq {m m' : Mgr} (hr : m'.requests = m.requests) (hs : m'.subs = m.subs) (h : SubsOK m) : SubsOK m' := by
+  unfold SubsOK at *; rw [hr, hs]; exact h
+
+theorem subsOK_empty : SubsOK {} := by
+  intro s rid h; simp [alookup] at h
+
+/-- removing an entry that is not a subscription -/
+theorem subsOK_erase_req (m : Mgr) (id : Id) (h : SubsOK m)
+    (hk : ∀ uid c um, alookup id m.requests ≠ some (.sub uid c um)) :
+    SubsOK { m with requests := aerase id m.requests } := by
+  intro s rid hl
+  obtain ⟨⟨uid, c, um, hq⟩, hinj⟩ := h s rid hl
+  have hne : rid ≠ id := by intro e; subst e; exact hk _ _ _ hq
+  exact ⟨⟨uid, c, um, by simp only; rw [alookup_aerase_ne _ _ _ hne]; exact hq⟩, hinj⟩
+
+/-- inserting under a vacant request id -/
+theorem subsOK_insert_req (m : Mgr) (id : Id) (k : Kind) (h : SubsOK m) (hv : alookup id m.requests = none) :
+    SubsOK { m with requests := (id, k) :: m.requests } := by
+  intro s rid hl
+  obtain ⟨⟨uid, c, um, hq⟩, hinj⟩ := h s rid hl
+  have hne : rid ≠ id := by intro e; subst e; simp [hv] at hq
+  exact ⟨⟨uid, c, um, by simp only; rw [alookup_cons_ne _ _ _ _ hne]; exact hq⟩, hinj⟩
+
+theorem subsOK_insertSubscription (m m' : Mgr) (sid uid : Id) (s : SubId) (c : ChanId) (um : Text)
+    (h : SubsOK m) (hi : m.insertSubscription sid uid s c um = some m') : SubsOK m' := by
+  obtain ⟨hv1, hv2, e⟩ := insertSubscription_spec _ _ _ _ _ _ _ hi
+  subst e
+  intro s0 rid0 hl
+  simp only at hl ⊢
+  by_cases hs : s0 = s
+  · subst hs
+    rw [alookup_cons_self] at hl
+    simp at hl; subst hl
+    refine ⟨⟨uid, c, um, alookup_cons_self _ _ _⟩, ?_⟩
+    intro s' hs'
+    by_cases e : s' = s0
+    · exact e
+    · rw [alookup_cons_ne _ _ _ _ e] at hs'
+      obtain ⟨⟨_, _, _, hq⟩, _⟩ := h s' sid hs'
+      simp [hv1] at hq
+  · rw [alookup_cons_ne _ _ _ _ hs] at hl
+    obtain ⟨⟨uid', c', um', hq⟩, hinj⟩ := h s0 rid0 hl
+    have hne : rid0 ≠ sid := by intro e; subst e; simp [hv1] at hq
+    refine ⟨⟨uid', c', um', by rw [alookup_cons_ne _ _ _ _ hne]; exact hq⟩, ?_⟩
+    intro s' hs'
+    by_cases e : s' = s
+    · subst e; rw [alookup_cons_self] at hs'; simp at hs'; exact absurd hs'.symm hne
+    · rw [alookup_cons_ne _ _ _ _ e] at hs'; exact hinj s' hs'
+
+/-- `remove_subscription` / `unsubscribe`: the reverse-index entry goes, the request entry is
+erased resp. overwritten by a non-subscription -/
+theorem subsOK_drop_sub (m : Mgr) (rid : Id) (s : SubId) (reqs' : List (Id × Kind)) (h : SubsOK m)
+    (hl : alookup s m.subs = some rid)
+    (hr : ∀ k, k ≠ rid → alookup k reqs' = alookup k m.requests) :
+    SubsOK { m with requests := reqs', subs := aerase s m.subs } := by
+  intro s0 rid0 hl0
+  simp only at hl0 ⊢
+  have hs0 : s0 ≠ s := by intro e; subst e; simp [alookup_aerase_self] at hl0
+  rw [alookup_aerase_ne _ _ _ hs0] at hl0
+  obtain ⟨⟨uid', c', um', hq⟩, hinj⟩ := h s0 rid0 hl0
+  have hne : rid0 ≠ rid := by
+    intro e; subst e
+    exact hs0 ((h s rid0 hl).2 s0 hl0)
+  refine ⟨⟨uid', c', um', by rw [hr _ hne]; exact hq⟩, ?_⟩
+  intro s' hs'
+  have : s' ≠ s := by intro e; subst e; simp [alookup_aerase_self] at hs'
+  rw [alookup_aerase_ne _ _ _ this] at hs'
+  exact hinj s' hs'
+
+
+theorem processSubscriptionClose_subsOK (st : Core) (s : SubId) (h : SubsOK st.mgr) :
+    SubsOK (processSubscriptionClose st s).mgr := by
+  unfold processSubscriptionClose
+  cases h1 : st.mgr.getRequestIdBySubscriptionId s with
+  | none => exact h
+  | some rid =>
+    simp only
+    cases h2 : st.mgr.removeSubscription rid s with
+    | none => exact h
+    | some x =>
+      obtain ⟨m', uid, c, um⟩ := x
+      obtain ⟨_, _, e⟩ := removeSubscription_spec _ _ _ _ _ _ _ h2
+      subst e
+      simp only [modChan_mgr]
+      exact subsOK_drop_sub st.mgr rid s _ h h1 (fun k hk => alookup_aerase_ne _ _ _ hk)
+
+theorem buildUnsub_subsOK (st : Core) (rid : Id) (s : SubId) (st' : Core) (msg : FrontMsg) (h : SubsOK st.mgr)
+    (hl : alookup s st.mgr.subs = some rid) (hb : buildUnsubscribeMessage st rid s = some (st', msg)) :
+    SubsOK st'.mgr := by
+  obtain ⟨uid, c, um, _, _, hm, _⟩ := buildUnsub_spec st rid s st' msg hb
+  rw [hm]
+  exact subsOK_drop_sub st.mgr rid s _ h hl (fun k hk => alookup_areplace_ne _ _ _ _ hk)
+
+theorem completeSubscribe_subsOK (st : Core) (r : Response) (uid : Id) (t : Ticket) (um : Text) (h : SubsOK st.mgr) :
+    SubsOK (completeSubscribe st r uid t um).1.mgr := by
+  unfold completeSubscribe
+  cases hp : r.payload with
+  | error e => exact h
+  | result raw =>
+    simp only
+    cases hd : decodeSubId raw with
+    | none => exact h
+    | some s =>
+      simp only
+      cases hins : st.mgr.insertSubscription r.id uid s st.chans.length um with
+      | none => exact h
+      | some m' =>
+        have h' : SubsOK m' := subsOK_insertSubscription _ _ _ _ _ _ _ h hins
+        obtain ⟨_, _, e⟩ := insertSubscription_spec _ _ _ _ _ _ _ hins
+        simp only
+        by_cases hal : st.alive t = true
+        · simp only [hal, if_true]; exact h'
+        · simp only [hal]
+          unfold abandonedSubscribe
+          generalize hst : (({ st with mgr := m' }.newChan (.sub s) t.op uid).1.modChan st.chans.length
+              (fun ch => { dropReceiver ch with hasKind := false })) = stx
+          have hmx : stx.mgr = m' := by rw [← hst]; rfl
+          cases hb : buildUnsubscribeMessage stx r.id s with
+          | none => simp only [Bool.false_eq_true, if_false]; rw [hmx]; exact h'
+          | some x =>
+            obtain ⟨st', msg⟩ := x
+            simp only [Bool.false_eq_true, if_false]
+            exact buildUnsub_subsOK stx _ _ _ _ (hmx ▸ h') (by rw [hmx, e]; exact alookup_cons_self _ _ _) hb
+
+theorem processSingleResponse_subsOK (st st' : Core) (r : Response) (effs : List Effect) (h : SubsOK st.mgr)
+    (hp : processSingleResponse st r = .ok (st', effs)) : SubsOK st'.mgr := by
+  unfold processSingleResponse at hp
+  cases hs : st.mgr.requestStatus r.id with
+  | pendingCall =>
+    simp only [hs] at hp
+    cases hc : st.mgr.completePendingCall r.id with
+    | none => simp [hc] at hp
+    | some x =>
+      obtain ⟨m', t⟩ := x
+      obtain ⟨hl, e⟩ := completePendingCall_spec _ _ _ _ hc
+      have hm : st'.mgr = m' := by
+        cases t <;> simp [hc] at hp <;> rw [← hp.1] <;> rfl
+      rw [hm, e]
+      exact subsOK_erase_req _ _ h (by intro a b c; rw [hl]; simp)
+  | pendingSub =>
+    simp only [hs] at hp
+    cases hc : st.mgr.completePendingSubscription r.id with
+    | none => simp [hc] at hp
+    | some x =>
+      obtain ⟨m', uid, t, um⟩ := x
+      obtain ⟨hl, e⟩ := completePendingSubscription_spec _ _ _ _ _ _ hc
+      simp [hc] at hp
+      have := completeSubscribe_subsOK { st with mgr := m' } r uid t um
+        (by rw [e]; exact subsOK_erase_req _ _ h (by intro a b c; rw [hl]; simp))
+      rw [hp] at this
+      exact this
+  | sub => simp [hs] at hp
+  | invalid => simp [hs] at hp
+
+/-- `handle_recv_message` keeps the table invariant -/
+theorem handleBack_subsOK (st : Core) (raw : Text) (h : SubsOK st.mgr) : SubsOK (handleBack st raw).st.mgr := by
+  have := handleBack_rel (fun c c' => SubsOK c.mgr → SubsOK c'.mgr) (fun _ h => h) (fun _ _ _ h1 h2 h => h2 (h1 h))
+    (fun c s p h => by rw [(processSubscriptionResponse_frame c s p).1]; exact h)
+    (fun c s h => processSubscriptionClose_subsOK c s h)
+    (fun c m p h => subsOK_of_eq (processNotification_requests c m p).1 (processNotification_requests c m p).2 h)
+    (fun c rps lo hi h => subsOK_of_eq (processBatchResponse_requests c rps lo hi).1 (processBatchResponse_requests c rps lo hi).2.1 h)
+    st raw (fun r c' effs _ hp h => processSingleResponse_subsOK st c' r effs h hp)
+  exact this h
+
+
+/-- `handle_frontend_messages` keeps the table invariant -/
+theorem handleFront_subsOK (st : Core) (msg : FrontMsg) (h : SubsOK st.mgr) : SubsOK (handleFront st msg).1.mgr := by
+  unfold handleFront
+  cases msg with
+  | batch lo hi t raw =>
+    simp only
+    cases h1 : st.mgr.insertPendingBatch (lo, hi) t with
+    | none => exact h
+    | some m' =>
+      unfold Mgr.insertPendingBatch at h1
+      split at h1
+      · simp at h1
+      · simp at h1; subst h1; exact subsOK_of_eq rfl rfl h
+  | notification raw => exact h
+  | request id t raw =>
+    simp only
+    cases h1 : st.mgr.insertPendingCall id t with
+    | none => cases t <;> exact h
+    | some m' =>
+      unfold Mgr.insertPendingCall at h1
+      split at h1
+      · simp at h1
+      · rename_i hv; simp at h1; subst h1; exact subsOK_insert_req _ _ _ h hv
+  | subscribe sid uid t um raw =>
+    simp only
+    cases h1 : st.mgr.insertPendingSubscription sid uid t um with
+    | none => exact h
+    | some m' =>
+      unfold Mgr.insertPendingSubscription at h1
+      split at h1
+      · rename_i hc
+        simp at h1; subst h1
+        obtain ⟨a, b, c⟩ := hc
+        have a' : alookup sid st.mgr.requests = none := by simpa using a
+        have b' : alookup uid st.mgr.requests = none := by simpa using b
+        have h2 := subsOK_insert_req st.mgr sid (.pendingSub uid t um) h a'
+        exact subsOK_insert_req _ uid (.pendingCall none) h2
+          (by simp only; rw [alookup_cons_ne _ _ _ _ (fun e => c e.symm)]; exact b')
+      · simp at h1
+  | subscriptionClosed s =>
+    simp only
+    cases h1 : st.mgr.getRequestIdBySubscriptionId s with
+    | none => exact h
+    | some rid =>
+      simp only
+      cases h2 : st.mgr.asSubscription rid with
+      | none => exact h
+      | some c =>
+        cases h3 : buildUnsubscribeMessage st rid s with
+        | none => exact h
+        | some x =>
+          obtain ⟨st', msg⟩ := x
+          have := buildUnsub_subsOK st rid s st' msg h h1 h3
+          cases msg <;> first | exact h | (simp only [modChan_mgr]; exact this)
+  | registerNotif meth t =>
+    simp only
+    cases h1 : st.mgr.insertNotificationHandler meth st.chans.length with
+    | none => exact h
+    | some m' =>
+      unfold Mgr.insertNotificationHandler at h1
+      split at h1
+      · simp at h1
+      · simp at h1; subst h1
+        simp only
+        split <;> exact subsOK_of_eq rfl rfl h
+  | unregisterNotif meth =>
+    simp only
+    split
+    · exact subsOK_of_eq rfl rfl h
+    · exact h
+
+theorem step_subsOK (st : St) (s : Step) (h : SubsOK st.core.mgr) : SubsOK (Client.step st s).st.core.mgr := by
+  cases s with
+  | sendTask i =>
+    cases hp : st.pool[i]? with
+    | none => simp only [Client.step, hp]; exact h
+    | some msg => simp only [Client.step, hp]; exact handleFront_subsOK st.core msg h
+  | recv raw => simp only [Client.step]; exact handleBack_subsOK st.core raw h
+  | newCall m p => exact h
+  | newSubscribe a b => exact h
+  | newBatch m n => exact h
+  | newRegister m => exact h
+  | newNotification r => exact h
+  | abandon op => exact h
+  | next c =>
+    simp only [Client.step]
+    split
+    · exact h
+    · split
+      · exact h
+      · split
+        · exact h
+        · split <;> exact h
+  | dropStream c room =>
+    simp only [Client.step]
+    split
+    · exact h
+    · split <;> exact h
+  | unsubscribeStream c =>
+    simp only [Client.step]
+    split
+    · exact h
+    · split <;> exact h
+
+/-- the table invariant holds in every state the client can reach -/
+theorem subsOK_reachable (st : St) (h : Reachable st) : SubsOK st.core.mgr :=
+  reachable_inv (fun st => SubsOK st.core.mgr) (fun _ _ => subsOK_empty) step_subsOK st h
+
+/-! ### no `expect` of the back handler can fire -/
+
+theorem closeExpect_ok (st : Core) (s : SubId) (h : SubsOK st.mgr) : closeExpectFails st s = false := by
+  unfold closeExpectFails
+  cases h1 : st.mgr.getRequestIdBySubscriptionId s with
+  | none => rfl
+  | some rid =>
+    obtain ⟨⟨uid, c, um, hq⟩, _⟩ := h s rid h1
+    have h1' : alookup s st.mgr.subs = some rid := h1
+    simp [Mgr.removeSubscription, hq, h1']
+
+theorem arrayPanics_false (es : List Text) : ∀ st : Core, SubsOK st.mgr → arrayPanics st es = false := by
+  induction es with
+  | nil => intro st _; rfl
+  | cons e rest ih =>
+    intro st h
+    rw [arrayPanics]
+    cases hc : classifyIncoming e with
+    | response r =>
+      simp only
+      cases idNum r.id with
+      | none => rfl
+      | some _ => exact ih st h
+    | garbage => rfl
+    | subNotif s p =>
+      simp only
+      exact ih _ (by rw [(processSubscriptionResponse_frame st s p).1]; exact h)
+    | subClose s =>
+      simp only [closeExpect_ok st s h, Bool.false_or]
+      exact ih _ (processSubscriptionClose_subsOK st s h)
+    | notif m p =>
+      simp only
+      exact ih _ (subsOK_of_eq (processNotification_requests st m p).1 (processNotification_requests st m p).2 h)
+
+theorem backPanics_false (st : Core) (raw : Text) (h : SubsOK st.mgr) : backPanics st raw = false := by
+  unfold backPanics
+  split
+  · rfl
+  · split
+    · split
+      · exact closeExpect_ok st _ h
+      · rfl
+    · split
+      · split
+        · exact arrayPanics_false _ st h
+        · rfl
+      · rfl
+
+
+/-! ### when both tasks have returned everything pending fails with the cause -/
+
+theorem settleFront_resolves (o : ExitOrder) (s : State) (h : Inv o s) (hc : CInv s)
+    (hs : s.sendP = .done) (hr : s.readP = .done) (i : Nat) (hi : i < s.fronts.length) :
+    s.frontClosed = true ∧ ∃ c, s.cause = some c ∧
+      ((∃ r, s.fronts[i]? = some (FPhase.resolved r) ∧ r ≠ .placeholder ∧
+          (settleFront s i).fronts[i]? = some (FPhase.resolved r)) ∨
+       ((∀ r, s.fronts[i]? ≠ some (FPhase.resolved r)) ∧
+          (settleFront s i).fronts[i]? = some (FPhase.resolved (.restart c)))) := by
+  have hfc : s.frontClosed = true := h.pastC (by rw [hs]; cases o <;> rfl)
+  have hwd := hc.closed hfc
+  have hcs := h.doneCause hwd
+  refine ⟨hfc, ?_⟩
+  cases hcz : s.cause with
+  | none => simp [hcz] at hcs
+  | some c =>
+    refine ⟨c, rfl, ?_⟩
+    have hnp := hc.noPh i
+    unfold settleFront frontRetry frontDrop frontReadError senderDropped slotResult State.setPhase
+    cases hp : s.fronts[i]? with
+    | none => have := List.getElem?_eq_none_iff.1 hp; omega
+    | some p => cases p <;> grind
+
+/-- every wait of a front-end operation is raced against the timer, except the wait inside
+`read_error`, which is already over (the front channel is closed) -/
+theorem wait_raced (o : ExitOrder) (s : State) (h : Inv o s) (i : Nat) (p : FPhase) (hp : s.fronts[i]? = some p) :
+    (∃ r, p = .resolved r) ∨
+    (frontTimer s i).fronts[i]? = some (FPhase.resolved .timeout) ∨
+    (p = .disconnected ∧ (frontReadError s i).fronts[i]? = some (FPhase.resolved (slotResult s))) := by
+  have hi : i < s.fronts.length := by
+    rcases Nat.lt_or_ge i s.fronts.length with h1 | h1
+    · exact h1
+    · have := List.getElem?_eq_none_iff.2 h1; simp [this] at hp
+  have hd := h.disc i
+  unfold frontTimer frontReadError State.setPhase
+  cases p <;> grind
+
+/-! ### the dropped manager ends every stream -/
+
+theorem dropManager_chan (st : Core) (c : ChanId) (ch : Chan) (h : (dropManager st).chans[c]? = some ch) :
+    ch.senderAlive = false := by
+  simp only [dropManager, List.getElem?_map] at h
+  cases hc : st.chans[c]? with
+  | none => simp [hc] at h
+  | some ch0 => simp [hc] at h; rw [← h]; rfl
+
+theorem next_after_drop (st : St) (c : ChanId) (ch : Chan) (h : (dropManager st.core).chans[c]? = some ch)
+    (ha : ch.receiverAlive = true) :
+    (Client.step { st with core := dropManager st.core } (.next c)).out =
+      match ch.buf with
+      | p :: _ => .item p
+      | [] => .ended ch.lagged := by
+  have hs := dropManager_chan st.core c ch h
+  simp only [Client.step, h, ha]
+  cases hb : ch.buf with
+  | nil => simp [hs]
+  | cons p rest => simp
+
+/-! ### fatal classes of `handle_recv_message` -/
+
+theorem fatal_other_first_byte (st : Core) (raw : Text) (h1 : firstNonWs raw ≠ some 123) (h2 : firstNonWs raw ≠ some 91) :
+    (handleBack st raw).fatal = some .unparseable ∧ (handleBack st raw).st = st ∧ (handleBack st raw).effs = [] := by
+  unfold handleBack
+  cases hf : firstNonWs raw with
+  | none => exact ⟨rfl, rfl, rfl⟩
+  | some c =>
+    have c1 : (c == 123) = false := by
+      cases hc : c == 123 with
+      | false => rfl
+      | true => exact absurd (by rw [hf]; simp at hc; rw [hc]) h1
+    have c2 : (c == 91) = false := by
+      cases hc : c == 91 with
+      | false => rfl
+      | true => exact absurd (by rw [hf]; simp at hc; rw [hc]) h2
+    simp [c1, c2]
+
+theorem fatal_garbage_object (st : Core) (raw : Text) (h1 : firstNonWs raw = some 123)
+    (h2 : classifyIncoming raw = .garbage) :
+    (handleBack st raw).fatal = some .unparseable ∧ (handleBack st raw).st = st ∧ (handleBack st raw).effs = [] := by
+  unfold handleBack
+  simp [h1, handleSingle, h2]
+
+theorem fatal_bad_array (st : Core) (raw : Text) (h1 : firstNonWs raw = some 91) (h2 : elements raw = none) :
+    (handleBack st raw).fatal = some .unparseable ∧ (handleBack st raw).st = st ∧ (handleBack st raw).effs = [] := by
+  unfold handleBack
+  simp [h1, h2]
+
+theorem handleBack_array (st : Core) (raw : Text) (es : List Text) (h1 : firstNonWs raw = some 91)
+    (h2 : elements raw = some es) : handleBack st raw = handleArray st es := by
+  unfold handleBack
+  simp [h1, h2]
+
+theorem fatal_empty_array (st : Core) (raw : Text) (h1 : firstNonWs raw = some 91) (h2 : elements raw = some []) :
+    (handleBack st raw).fatal = some (.batch .empty) ∧ (handleBack st raw).st = st ∧ (handleBack st raw).effs = [] := by
+  rw [handleBack_array st raw [] h1 h2]
+  simp [handleArray, arrayLoop, arrayFinish, dropQueued]
+
+theorem arrayLoop_garbage (es : List Text) (hg : ∃ e ∈ es, classifyIncoming e = .garbage) :
+    ∀ acc, (arrayLoop acc es).2.isSome = true := by
+  induction es with
+  | nil => obtain ⟨e, he, _⟩ := hg; simp at he
+  | cons e rest ih =>
+    intro acc
+    rw [arrayLoop]
+    cases hc : classifyIncoming e with
+    | garbage => rfl
+    | response r =>
+      have hg' : ∃ e ∈ rest, classifyIncoming e = .garbage := by
+        obtain ⟨x, hx, hxg⟩ := hg
+        rcases List.mem_cons.1 hx with e1 | e1
+        · subst e1; rw [hc] at hxg; simp at hxg
+        · exact ⟨x, e1, hxg⟩
+      simp only
+      cases idNum r.id with
+      | none => rfl
+      | some _ => exact ih hg' _
+    | subNotif s p =>
+      have hg' : ∃ e ∈ rest, classifyIncoming e = .garbage := by
+        obtain ⟨x, hx, hxg⟩ := hg
+        rcases List.mem_cons.1 hx with e1 | e1
+        · subst e1; rw [hc] at hxg; simp at hxg
+        · exact ⟨x, e1, hxg⟩
+      exact ih hg' _
+    | subClose s =>
+      have hg' : ∃ e ∈ rest, classifyIncoming e = .garbage := by
+        obtain ⟨x, hx, hxg⟩ := hg
+        rcases List.mem_cons.1 hx with e1 | e1
+        · subst e1; rw [hc] at hxg; simp at hxg
+        · exact ⟨x, e1, hxg⟩
+      exact ih hg' _
+    | notif m p =>
+      have hg' : ∃ e ∈ rest, classifyIncoming e = .garbage := by
+        obtain ⟨x, hx, hxg⟩ := hg
+        rcases List.mem_cons.1 hx with e1 | e1
+        · subst e1; rw [hc] at hxg; simp at hxg
+        · exact ⟨x, e1, hxg⟩
+      exact ih hg' _
+
+/-- an array with an element that is no JSON-RPC message ends the read task (with `unparseable`,
+or with the id error of an earlier entry) -/
+theorem fatal_garbage_element (st : Core) (raw : Text) (es : List Text) (h1 : firstNonWs raw = some 91)
+    (h2 : elements raw = some es) (hg : ∃ e ∈ es, classifyIncoming e = .garbage) :
+    (handleBack st raw).fatal.isSome = true := by
+  rw [handleBack_array st raw es h1 h2]
+  unfold handleArray
+  have := arrayLoop_garbage es hg { st := st }
+  cases hl : arrayLoop { st := st } es with
+  | mk acc f =>
+    rw [hl] at this
+    cases f with
+    | none => simp at this
+    | some f => rfl
+
+theorem fatal_unknown_id (st : Core) (raw : Text) (r : Response) (hd : decodeResponse raw = some r)
+    (hs : st.mgr.requestStatus r.id = .invalid ∨ st.mgr.requestStatus r.id = .sub) :
+    (handleBack st raw).fatal = some (.notPending r.id) ∧ (handleBack st raw).st = st ∧ (handleBack st raw).effs = [] := by
+  rw [handleBack_single_response st raw r hd]
+  unfold processSingleResponse
+  rcases hs with hs | hs <;> simp [hs]
+
+/-- the reply array ran through the loop and its largest id is 2^64-1: `checked_add(1)` fails -/
+theorem fatal_max_id (st : Core) (raw : Text) (es : List Text) (acc : ArrAcc) (lo : Nat)
+    (h1 : firstNonWs raw = some 91) (h2 : elements raw = some es)
+    (hl : arrayLoop { st := st } es = (acc, none)) (hr : acc.range = some (lo, u64Max)) :
+    (handleBack st raw).fatal = some (.batch (.invalidNum u64Max)) ∧ completions (handleBack st raw).effs = completions acc.effs := by
+  rw [handleBack_array st raw es h1 h2]
+  simp [handleArray, hl, arrayFinish, hr, rangeEnd, completions_dropQueued]
+
+/-- a reply whose id range matches no pending batch -/
+theorem fatal_unknown_batch (st : Core) (raw : Text) (es : List Text) (acc : ArrAcc) (lo hi : Nat)
+    (h1 : firstNonWs raw = some 91) (h2 : elements raw = some es)
+    (hl : arrayLoop { st := st } es = (acc, none)) (hr : acc.range = some (lo, hi)) (hne : hi ≠ u64Max)
+    (hb : alookup (lo, hi + 1) acc.st.mgr.batches = none) :
+    (handleBack st raw).fatal = some (.batch (.notPendingRange lo (hi + 1))) := by
+  rw [handleBack_array st raw es h1 h2]
+  simp [handleArray, hl, arrayFinish, hr, rangeEnd, hne, processBatchResponse, Mgr.completePendingBatch, hb]
+
+/-! ### the id arithmetic of the batch path stays inside u64 -/
+
+theorem idNum_fits (id : Id) (n : Nat) (hf : idFits id) (h : idNum id = some n) : n ≤ u64Max := by
+  cases id with
+  | null => simp [idNum] at h
+  | num k => simp [idNum] at h; subst h; exact hf
+  | str s =>
+    simp only [idNum, parseU64Str] at h
+    split at h
+    · simp at h
+    · split at h
+      · split at h
+        · simp at h; subst h; unfold u64Max; omega
+        · simp at h
+      · simp at h
+
+theorem decodeId_fits (raw : Text) (id : Id) (h : decodeId raw = some id) : idFits id := by
+  unfold decodeId at h
+  split at h
+  · simp at h; subst h; trivial
+  · split at h
+    · rename_i n hn
+      simp at h; subst h
+      unfold decodeU64 at hn
+      split at hn
+      · split at hn
+        · simp at hn; subst hn; simp only [idFits]; unfold u64Max; omega
+        · simp at hn
+      · simp at hn
+    · split at h
+      · simp at h; subst h; trivial
+      · simp at h
+
 end Jrpc.ClientTasks
